@@ -222,6 +222,11 @@ func runC07(tier, replay string) {
 		_ = json.Unmarshal(b, &w)
 		r.Seed, only, onlyVariant = w.Seed, w.Witness.Index, w.Witness.Variant
 	}
+	if replay == "" {
+		for _, st := range []string{"sql", "fs"} {
+			hiddenVersionScenario(ctx, r, st)
+		}
+	}
 	base := r.Rand()
 	totalHist, overlapped := 0, 0
 	for _, v := range variants {
